@@ -774,9 +774,13 @@ func (st *ex4State) checkCompletion(v *vio, o *ex4Op, name string, got *dhcpv4.D
 	if sid != nil && !got.ServerIdentifier().Equal(sid) {
 		v.add("X-result-server", "%s: completed by a %s bearing server identifier %v, want the selected server %v", name, got.MessageType(), got.ServerIdentifier(), sid)
 	}
-	src := st.findSource(got, o.invSeq, o.retSeq)
+	// C13 does not say *when* the completing datagram must have arrived (that is C10's
+	// clause, judged there): a client that reads ahead of its dispatcher may complete a phase
+	// with a datagram it took from the socket earlier. What C13 needs is that the result is a
+	// datagram the wire really delivered, not an invention.
+	src := st.findSource(got, 0, o.retSeq)
 	if src == nil {
-		v.add("X-result-provenance", "%s: the completing %s is not the decoding of a datagram delivered during the REQUEST phase", name, got.MessageType())
+		v.add("X-result-provenance", "%s: the completing %s is not the decoding of any datagram delivered to the client before the call returned", name, got.MessageType())
 		return
 	}
 	// what kind of message it is, read from the wire by the independent option reader: exactly
@@ -904,19 +908,19 @@ func (st *ex4State) oracle(v *vio) {
 				v.add("X-no-discover", "%s: REQUEST without a preceding DISCOVER", name)
 				break
 			}
-			// candidates: OFFERs for this client and transaction that the receive loop had in
-			// hand during the DISCOVER phase and that the first REQUEST names
+			// candidates: OFFERs for this client and transaction delivered before the first
+			// REQUEST and named by it (when they arrived is C10's business, not C13's)
 			var cands []*dhcpv4.DHCPv4
 			r0 := req[0]
 			opXid := xid4(disc[0].p.xid)
 			for _, r := range st.rx {
-				if (r.doneSeq == 0 || r.doneSeq >= o.invSeq) && r.seq < r0.seq && r.eligible(opXid) && r.m.MessageType() == dhcpv4.MessageTypeOffer &&
+				if r.seq < r0.seq && r.eligible(opXid) && r.m.MessageType() == dhcpv4.MessageTypeOffer &&
 					r0.ok && len(r0.p.opts[50]) == 4 && r.m.YourIPAddr.Equal(net.IP(r0.p.opts[50])) && bytes.Equal(r.m.Options.Get(dhcpv4.OptionServerIdentifier), r0.p.opts[54]) {
 					cands = append(cands, r.m)
 				}
 			}
 			if len(cands) == 0 {
-				v.add("X-req-no-offer", "%s: the REQUEST (addr %v, server %v) corresponds to no OFFER for this client and transaction delivered during the DISCOVER phase", name, net.IP(r0.p.opts[50]), r0.p.opts[54])
+				v.add("X-req-no-offer", "%s: the REQUEST (addr %v, server %v) corresponds to no OFFER for this client and transaction delivered before it was sent", name, net.IP(r0.p.opts[50]), r0.p.opts[54])
 				break
 			}
 			// several identical-looking offers may qualify: the one the result names, if any
@@ -961,8 +965,8 @@ func (st *ex4State) checkOffer(v *vio, o *ex4Op, name string, offer *dhcpv4.DHCP
 	if offer.MessageType() != dhcpv4.MessageTypeOffer || offer.OpCode != dhcpv4.OpcodeBootReply || !bytes.Equal(offer.ClientHWAddr, ex4ClientHW) || offer.TransactionID != want {
 		v.add("X-offer-foreign", "%s: returned a %s (op=%v hw=%v xid=%s) as the offer", name, offer.MessageType(), offer.OpCode, offer.ClientHWAddr, offer.TransactionID)
 	}
-	if len(disc) > 0 && st.findSource(offer, o.invSeq, before) == nil {
-		v.add("X-offer-provenance", "%s: the returned offer is not the decoding of a datagram delivered during the call", name)
+	if len(disc) > 0 && st.findSource(offer, 0, before) == nil {
+		v.add("X-offer-provenance", "%s: the returned offer is not the decoding of any datagram delivered to the client before the call returned", name)
 	}
 }
 
